@@ -28,8 +28,13 @@ import Mathlib.Tactic.Linarith
   * `equivPhase_sound`, `equivPhase_sound_get`  accepted ⇒ `z = a_l/b_l ≠ 0`, `|a_k − z b_k| ≤ atol + 1e-5·|z b_k|` ∀ k
   * `equivPhase_crisp`      accepted + honest closeness tests ⇒ `a = z·b` exactly
   bsrEq
-  * `bsrEq_iff`, `bsrEq_sound`   accepted ⇔ same qubit and the operators `rot` are entrywise close *including phase*
-  * `bsrEq_complete_exact`, `bsrEq_refl`, `bsrEq_symm_exact`, `bsrEq_ne_qubit`
+  * `close2_iff`, `isScalar2_iff`   the two `np.allclose` tests in terms of `rot` entries
+  * `bsrEq_iff`, `bsrEq_sound`   accepted ⇔ (same qubit ∨ first operator scalar to tolerance) and the operators `rot`
+                            are entrywise close *including phase*
+  * `bsrEq_complete_exact` (same qubit), `bsrEq_complete_exact_diff` (any qubits, both operators the same `c•1`),
+    `isScalar2_of_smul_one`, `bsrEq_diff_qubit_sound_exact` (crisp: accepted on different qubits ⇒ both are the
+    same `c•1`), `bsrEq_refl`, `bsrEq_symm_exact`, `bsrEq_symm_exact_diff`,
+    `bsrEq_ne_qubit` (different qubits and not scalar ⇒ rejected), `isScalar2_X_false`
   * `rot_X_two_reps` + example: `X` as (x, π, π/2) and as (−x, π, −π/2) are equal for `bsrEq`
   Re-indexing, local matrix of one gate (generic in `α` unless stated)
   * `indexOf?_eq`, `Gate.pos idx g` (operands ↦ positions in `idx`), `reindexGate_eq`: re-indexing succeeds iff every
@@ -57,8 +62,9 @@ import Mathlib.Tactic.Linarith
                                to one factor `z ≠ 0` within `atol + 1e-5·|z·entry|` (never equates different operations)
   * `gateEq_eq_compareGates`   `Gate.__eq__` is `compare_gates` unless both gates are plain rotations
   * `equivPhase_reverse_bound` the tolerance version is asymmetric only through the `rtol·|z b|` term (and the pivot)
-  NOTE: `Gate.__eq__` on two plain rotations (`bsrEq`) compares operators *including* the global phase, every other
-  pair goes through `compare_gates`, which ignores it; both mirror the Python source.
+  NOTE: `Gate.__eq__` on two plain rotations (`bsrEq`) compares operators *including* the global phase (on different
+  qubits it accepts only two rotations that are the same multiple of the identity, to tolerance), every other pair
+  goes through `compare_gates`, which ignores the phase; both mirror the Python source.
 -/
 
 namespace OSq
@@ -338,76 +344,188 @@ theorem can1_flat (ax : Vec3 ℝ) (an ph : ℝ) (k : Nat) (hk : k < 4) :
   rw [this]
   exact can1_get ax an ph ⟨k / 2, by omega⟩ ⟨k % 2, by omega⟩
 
+/-- `close2` (`np.allclose` of two 2×2 operators) entrywise, in Mathlib vocabulary -/
+theorem close2_iff (atol : ℝ) (a b : Mat ℝ) (ha : a.n = 2) (hb : b.n = 2) :
+    close2 atol a b = true ↔ ∀ i j : Fin 2,
+      ‖(a.get i j).toC - (b.get i j).toC‖ ≤ atol + 1e-5 * ‖(b.get i j).toC‖ := by
+  unfold close2
+  simp only [List.all_eq_true, List.mem_range, decide_eq_true_eq, Cx.abs_real, Cx.toC_sub]
+  constructor
+  · intro H i j
+    have hk : i.val * 2 + j.val < 4 := by have := i.isLt; have := j.isLt; omega
+    have := H _ hk
+    rwa [← Mat.flat, ← Mat.flat, ← Mat.get_eq_flat a ha, ← Mat.get_eq_flat b hb] at this
+  · intro H k hk
+    have := H ⟨k / 2, by omega⟩ ⟨k % 2, by omega⟩
+    rwa [← Mat.flat_eq_get a ha, ← Mat.flat_eq_get b hb] at this
+
+/-- **`isScalar2`** (`np.allclose(m, m[0,0]·eye(2))`) on a rotation operator, through the textbook operator `rot` -/
+theorem isScalar2_iff (atol : ℝ) (ax : Vec3 ℝ) (an ph : ℝ) :
+    isScalar2 atol (can1 ax an ph) = true ↔ ∀ i j : Fin 2,
+      ‖rot ax an ph i j - (if i = j then rot ax an ph 0 0 else 0)‖
+        ≤ atol + 1e-5 * ‖(if i = j then rot ax an ph 0 0 else 0)‖ := by
+  unfold isScalar2
+  rw [close2_iff atol _ _ rfl rfl]
+  have h00 : ((can1 ax an ph).get 0 0).toC = rot ax an ph 0 0 := can1_get ax an ph 0 0
+  have key : ∀ i j : Fin 2,
+      ((Mat.ofFn 2 fun i j => if i = j then (can1 ax an ph).get 0 0
+          else (can1 ax an ph).get 0 0 * Cx.zero).get i j).toC
+        = (if i = j then rot ax an ph 0 0 else 0) := by
+    intro i j
+    rw [Mat.get_ofFn i.isLt j.isLt]
+    by_cases h : i = j
+    · rw [if_pos (by rw [h]), if_pos h, h00]
+    · rw [if_neg (fun e => h (Fin.ext e)), if_neg h, Cx.toC_mul, Cx.toC_zero, mul_zero]
+  constructor
+  · intro H i j
+    have := H i j
+    rwa [can1_get, key] at this
+  · intro H i j
+    rw [can1_get, key]
+    exact H i j
+
 /-- **`bsrEq` decides closeness of the two operators, phase included** (`np.allclose` of the `can1`
-    matrices, which are the textbook operators `rot`), after the test for the same qubit. -/
+    matrices, which are the textbook operators `rot`); on different qubits it additionally requires the
+    first operator to be a multiple of the identity (to tolerance). -/
 theorem bsrEq_iff (atol : ℝ) (q1 : Int) (a1 : Vec3 ℝ) (n1 p1 : ℝ) (q2 : Int) (a2 : Vec3 ℝ) (n2 p2 : ℝ) :
     bsrEq atol q1 a1 n1 p1 q2 a2 n2 p2 = true ↔
-      q1 = q2 ∧ ∀ i j : Fin 2,
+      (q1 = q2 ∨ isScalar2 atol (can1 a1 n1 p1) = true) ∧ ∀ i j : Fin 2,
         ‖rot a1 n1 p1 i j - rot a2 n2 p2 i j‖ ≤ atol + 1e-5 * ‖rot a2 n2 p2 i j‖ := by
+  have hclose : close2 atol (can1 a1 n1 p1) (can1 a2 n2 p2) = true ↔ ∀ i j : Fin 2,
+      ‖rot a1 n1 p1 i j - rot a2 n2 p2 i j‖ ≤ atol + 1e-5 * ‖rot a2 n2 p2 i j‖ := by
+    rw [close2_iff atol _ _ rfl rfl]
+    constructor
+    · intro H i j; have := H i j; rwa [can1_get, can1_get] at this
+    · intro H i j; rw [can1_get, can1_get]; exact H i j
   unfold bsrEq
+  simp only []
   by_cases hq : q1 = q2
-  · have hq' : (q1 != q2) = false := by simp [hq]
-    simp only [hq', Bool.false_eq_true, if_false, List.all_eq_true, List.mem_range, decide_eq_true_eq,
-      Cx.abs_real, Cx.toC_sub]
-    constructor
-    · intro H
-      refine ⟨hq, ?_⟩
-      intro i j
-      have hk : i.val * 2 + j.val < 4 := by have := i.isLt; have := j.isLt; omega
-      have := H _ hk
-      rw [can1_flat a1 n1 p1 _ hk, can1_flat a2 n2 p2 _ hk] at this
-      have e1 : (⟨(i.val * 2 + j.val) / 2, by omega⟩ : Fin 2) = i := by
-        apply Fin.ext; have := j.isLt; simp; omega
-      have e2 : (⟨(i.val * 2 + j.val) % 2, by omega⟩ : Fin 2) = j := by
-        apply Fin.ext; have := j.isLt; simp; omega
-      rw [e1, e2] at this
-      exact this
-    · rintro ⟨-, H⟩ k hk
-      rw [can1_flat a1 n1 p1 _ hk, can1_flat a2 n2 p2 _ hk]
-      exact H _ _
-  · have hq' : (q1 != q2) = true := by simp [hq]
-    simp only [hq', if_true]
-    constructor
-    · intro h; cases h
-    · rintro ⟨h, -⟩; exact absurd h hq
+  · have hc : (q1 != q2 && !isScalar2 atol (can1 a1 n1 p1)) = false := by simp [hq]
+    rw [if_neg (by rw [hc]; exact Bool.false_ne_true), hclose]
+    exact ⟨fun H => ⟨Or.inl hq, H⟩, fun H => H.2⟩
+  · by_cases hs : isScalar2 atol (can1 a1 n1 p1) = true
+    · have hc : (q1 != q2 && !isScalar2 atol (can1 a1 n1 p1)) = false := by simp [hs]
+      rw [if_neg (by rw [hc]; exact Bool.false_ne_true), hclose]
+      exact ⟨fun H => ⟨Or.inr hs, H⟩, fun H => H.2⟩
+    · have hc : (q1 != q2 && !isScalar2 atol (can1 a1 n1 p1)) = true := by simp [hq, hs]
+      rw [if_pos hc]
+      constructor
+      · intro h; cases h
+      · rintro ⟨h | h, -⟩
+        · exact absurd h hq
+        · exact absurd h hs
 
-/-- **Soundness**: an accepted pair acts on the same qubit and the two operators are entrywise close,
-    *including the global phase*. -/
+/-- **Soundness**: for an accepted pair the two operators are entrywise close, *including the global phase*,
+    and either the qubit is the same or the first operator is a multiple of the identity (to tolerance). -/
 theorem bsrEq_sound (atol : ℝ) (q1 : Int) (a1 : Vec3 ℝ) (n1 p1 : ℝ) (q2 : Int) (a2 : Vec3 ℝ) (n2 p2 : ℝ)
     (h : bsrEq atol q1 a1 n1 p1 q2 a2 n2 p2 = true) :
-    q1 = q2 ∧ ∀ i j : Fin 2,
+    (q1 = q2 ∨ isScalar2 atol (can1 a1 n1 p1) = true) ∧ ∀ i j : Fin 2,
       ‖rot a1 n1 p1 i j - rot a2 n2 p2 i j‖ ≤ atol + 1e-5 * ‖rot a2 n2 p2 i j‖ :=
   (bsrEq_iff atol q1 a1 n1 p1 q2 a2 n2 p2).mp h
 
-/-- **Completeness for exact equality**: same qubit and the same operator — whatever the representation by
-    axis, angle and phase — is accepted for every non-negative tolerance. -/
+/-- **Completeness for exact equality, same qubit**: same qubit and the same operator — whatever the
+    representation by axis, angle and phase — is accepted for every non-negative tolerance. -/
 theorem bsrEq_complete_exact (atol : ℝ) (hatol : 0 ≤ atol) (q : Int) (a1 : Vec3 ℝ) (n1 p1 : ℝ)
     (a2 : Vec3 ℝ) (n2 p2 : ℝ) (h : rot a1 n1 p1 = rot a2 n2 p2) :
     bsrEq atol q a1 n1 p1 q a2 n2 p2 = true := by
   rw [bsrEq_iff]
-  refine ⟨rfl, ?_⟩
+  refine ⟨Or.inl rfl, ?_⟩
   intro i j
   rw [h, sub_self, norm_zero]
   have : (0 : ℝ) ≤ 1e-5 * ‖rot a2 n2 p2 i j‖ := mul_nonneg rtol_real_nonneg (norm_nonneg _)
   linarith
+
+/-- an exact multiple of the identity passes the scalar test, for every non-negative tolerance -/
+theorem isScalar2_of_smul_one (atol : ℝ) (hatol : 0 ≤ atol) (ax : Vec3 ℝ) (an ph : ℝ) (c : ℂ)
+    (h : rot ax an ph = c • (1 : Matrix (Fin 2) (Fin 2) ℂ)) : isScalar2 atol (can1 ax an ph) = true := by
+  rw [isScalar2_iff]
+  intro i j
+  have : rot ax an ph i j = (if i = j then rot ax an ph 0 0 else 0) := by
+    rw [h]
+    by_cases hij : i = j
+    · subst hij; simp
+    · simp [hij]
+  rw [← this, sub_self, norm_zero]
+  have : (0 : ℝ) ≤ 1e-5 * ‖rot ax an ph i j‖ := mul_nonneg rtol_real_nonneg (norm_nonneg _)
+  linarith
+
+/-- **Completeness for exact equality, any two qubits**: two rotations that are the *same* multiple `c•1` of
+    the identity are the same operation wherever they sit, and are accepted (every non-negative tolerance). -/
+theorem bsrEq_complete_exact_diff (atol : ℝ) (hatol : 0 ≤ atol) (q1 q2 : Int) (a1 : Vec3 ℝ) (n1 p1 : ℝ)
+    (a2 : Vec3 ℝ) (n2 p2 : ℝ) (c : ℂ)
+    (h1 : rot a1 n1 p1 = c • (1 : Matrix (Fin 2) (Fin 2) ℂ))
+    (h2 : rot a2 n2 p2 = c • (1 : Matrix (Fin 2) (Fin 2) ℂ)) :
+    bsrEq atol q1 a1 n1 p1 q2 a2 n2 p2 = true := by
+  rw [bsrEq_iff]
+  refine ⟨Or.inr (isScalar2_of_smul_one atol hatol a1 n1 p1 c h1), ?_⟩
+  intro i j
+  rw [h1, h2, sub_self, norm_zero]
+  have : (0 : ℝ) ≤ 1e-5 * ‖(c • (1 : Matrix (Fin 2) (Fin 2) ℂ)) i j‖ :=
+    mul_nonneg rtol_real_nonneg (norm_nonneg _)
+  linarith
+
+/-- **Exact-level soundness on different qubits.**  If `bsrEq` accepts two rotations on different qubits and
+    every closeness test it made is honest (crisp: close only if equal), both operators are the same scalar
+    multiple of the identity — i.e. the two gates are the same operation on the union of the two qubits. -/
+theorem bsrEq_diff_qubit_sound_exact (atol : ℝ) (q1 q2 : Int) (hq : q1 ≠ q2) (a1 : Vec3 ℝ) (n1 p1 : ℝ)
+    (a2 : Vec3 ℝ) (n2 p2 : ℝ)
+    (hc1 : ∀ i j : Fin 2,
+      ‖rot a1 n1 p1 i j - (if i = j then rot a1 n1 p1 0 0 else 0)‖
+        ≤ atol + 1e-5 * ‖(if i = j then rot a1 n1 p1 0 0 else 0)‖ →
+      rot a1 n1 p1 i j = (if i = j then rot a1 n1 p1 0 0 else 0))
+    (hc2 : ∀ i j : Fin 2,
+      ‖rot a1 n1 p1 i j - rot a2 n2 p2 i j‖ ≤ atol + 1e-5 * ‖rot a2 n2 p2 i j‖ →
+      rot a1 n1 p1 i j = rot a2 n2 p2 i j)
+    (h : bsrEq atol q1 a1 n1 p1 q2 a2 n2 p2 = true) :
+    ∃ c : ℂ, rot a1 n1 p1 = c • (1 : Matrix (Fin 2) (Fin 2) ℂ) ∧
+      rot a2 n2 p2 = c • (1 : Matrix (Fin 2) (Fin 2) ℂ) := by
+  obtain ⟨hs, hcl⟩ := bsrEq_sound _ _ _ _ _ _ _ _ _ h
+  have hs : isScalar2 atol (can1 a1 n1 p1) = true := by
+    rcases hs with hs | hs
+    · exact absurd hs hq
+    · exact hs
+  rw [isScalar2_iff] at hs
+  have e1 : rot a1 n1 p1 = rot a1 n1 p1 0 0 • (1 : Matrix (Fin 2) (Fin 2) ℂ) := by
+    ext i j
+    rw [hc1 i j (hs i j)]
+    by_cases hij : i = j
+    · subst hij; simp
+    · simp [hij]
+  have e2 : rot a2 n2 p2 = rot a1 n1 p1 := by
+    ext i j
+    exact (hc2 i j (hcl i j)).symm
+  exact ⟨rot a1 n1 p1 0 0, e1, by rw [e2]; exact e1⟩
 
 /-- reflexivity of rotation equality -/
 theorem bsrEq_refl (atol : ℝ) (hatol : 0 ≤ atol) (q : Int) (ax : Vec3 ℝ) (an ph : ℝ) :
     bsrEq atol q ax an ph q ax an ph = true :=
   bsrEq_complete_exact atol hatol q ax an ph ax an ph rfl
 
-/-- exact-level symmetry of rotation equality -/
+/-- exact-level symmetry of rotation equality, same qubit -/
 theorem bsrEq_symm_exact (atol : ℝ) (hatol : 0 ≤ atol) (q : Int) (a1 : Vec3 ℝ) (n1 p1 : ℝ)
     (a2 : Vec3 ℝ) (n2 p2 : ℝ) (h : rot a1 n1 p1 = rot a2 n2 p2) :
     bsrEq atol q a1 n1 p1 q a2 n2 p2 = true ∧ bsrEq atol q a2 n2 p2 q a1 n1 p1 = true :=
   ⟨bsrEq_complete_exact atol hatol q _ _ _ _ _ _ h, bsrEq_complete_exact atol hatol q _ _ _ _ _ _ h.symm⟩
 
-/-- a different qubit is never accepted -/
+/-- exact-level symmetry on any two qubits: both operators the same multiple of the identity -/
+theorem bsrEq_symm_exact_diff (atol : ℝ) (hatol : 0 ≤ atol) (q1 q2 : Int) (a1 : Vec3 ℝ) (n1 p1 : ℝ)
+    (a2 : Vec3 ℝ) (n2 p2 : ℝ) (c : ℂ)
+    (h1 : rot a1 n1 p1 = c • (1 : Matrix (Fin 2) (Fin 2) ℂ))
+    (h2 : rot a2 n2 p2 = c • (1 : Matrix (Fin 2) (Fin 2) ℂ)) :
+    bsrEq atol q1 a1 n1 p1 q2 a2 n2 p2 = true ∧ bsrEq atol q2 a2 n2 p2 q1 a1 n1 p1 = true :=
+  ⟨bsrEq_complete_exact_diff atol hatol q1 q2 _ _ _ _ _ _ c h1 h2,
+   bsrEq_complete_exact_diff atol hatol q2 q1 _ _ _ _ _ _ c h2 h1⟩
+
+/-- on different qubits a rotation that is not a multiple of the identity (to tolerance) equals nothing -/
 theorem bsrEq_ne_qubit (atol : ℝ) (q1 q2 : Int) (hq : q1 ≠ q2) (a1 : Vec3 ℝ) (n1 p1 : ℝ) (a2 : Vec3 ℝ)
-    (n2 p2 : ℝ) : bsrEq atol q1 a1 n1 p1 q2 a2 n2 p2 = false := by
+    (n2 p2 : ℝ) (hs : isScalar2 atol (can1 a1 n1 p1) = false) :
+    bsrEq atol q1 a1 n1 p1 q2 a2 n2 p2 = false := by
   cases h : bsrEq atol q1 a1 n1 p1 q2 a2 n2 p2 with
   | false => rfl
-  | true => exact absurd (bsrEq_sound _ _ _ _ _ _ _ _ _ h).1 hq
+  | true =>
+    rcases (bsrEq_sound _ _ _ _ _ _ _ _ _ h).1 with h' | h'
+    · exact absurd h' hq
+    · rw [hs] at h'; cases h'
 
 /-- two representations of Pauli `X`: axis `x`, angle `π`, phase `π/2`, and axis `-x`, angle `π`, phase `-π/2` -/
 theorem rot_X_two_reps : rot (1, 0, 0) Real.pi (Real.pi / 2) = rot (-1, 0, 0) Real.pi (-(Real.pi / 2)) := by
@@ -423,8 +541,33 @@ theorem rot_X_two_reps : rot (1, 0, 0) Real.pi (Real.pi / 2) = rot (-1, 0, 0) Re
 example : bsrEq (1e-7 : ℝ) 0 (1, 0, 0) Real.pi (Real.pi / 2) 0 (-1, 0, 0) Real.pi (-(Real.pi / 2)) = true :=
   bsrEq_complete_exact _ (by norm_num) 0 _ _ _ _ _ _ rot_X_two_reps
 
+/-- Pauli `X` is not a multiple of the identity: its `(0,1)` entry is `1` -/
+theorem isScalar2_X_false : isScalar2 (1e-7 : ℝ) (can1 ((1, 0, 0) : Vec3 ℝ) Real.pi (Real.pi / 2)) = false := by
+  cases h : isScalar2 (1e-7 : ℝ) (can1 ((1, 0, 0) : Vec3 ℝ) Real.pi (Real.pi / 2)) with
+  | false => rfl
+  | true =>
+    exfalso
+    have h01 := (isScalar2_iff _ _ _ _).mp h 0 1
+    have hI : Complex.exp (Complex.I * ((Real.pi / 2 : ℝ) : ℂ)) = Complex.I := by
+      rw [mul_comm]; push_cast; exact Complex.exp_pi_div_two_mul_I
+    have hX : rot ((1, 0, 0) : Vec3 ℝ) Real.pi (Real.pi / 2) 0 1 = 1 := by
+      rw [rot_eq, hI]; simp
+    rw [hX] at h01
+    norm_num at h01
+
+/-- `X` on qubit 0 and `X` on qubit 1 are different operations -/
 example : bsrEq (1e-7 : ℝ) 0 (1, 0, 0) Real.pi (Real.pi / 2) 1 (1, 0, 0) Real.pi (Real.pi / 2) = false :=
-  bsrEq_ne_qubit _ 0 1 (by decide) _ _ _ _ _ _
+  bsrEq_ne_qubit _ 0 1 (by decide) _ _ _ _ _ _ isScalar2_X_false
+
+/-- identity rotations on different qubits (any axes) are the same operation -/
+example (ax ax' : Vec3 ℝ) : bsrEq (1e-7 : ℝ) 0 ax 0 0 1 ax' 0 0 = true :=
+  bsrEq_complete_exact_diff _ (by norm_num) 0 1 _ _ _ _ _ _ 1
+    (by rw [rot_zero, one_smul]) (by rw [rot_zero, one_smul])
+
+/-- non-vacuity of the exact-level soundness on different qubits: its hypothesis is satisfiable -/
+example (ax ax' : Vec3 ℝ) : ∃ c : ℂ, rot ax 0 0 = c • (1 : Matrix (Fin 2) (Fin 2) ℂ) ∧
+    rot ax' 0 0 = c • (1 : Matrix (Fin 2) (Fin 2) ℂ) :=
+  ⟨1, by rw [rot_zero, one_smul], by rw [rot_zero, one_smul]⟩
 
 /-! ## Re-indexing and the local matrix of one gate -/
 
@@ -1124,6 +1267,10 @@ end OSq
 #print axioms OSq.equivPhase_complete_exact
 #print axioms OSq.equivPhase_sound
 #print axioms OSq.bsrEq_iff
+#print axioms OSq.isScalar2_iff
+#print axioms OSq.bsrEq_complete_exact_diff
+#print axioms OSq.bsrEq_diff_qubit_sound_exact
+#print axioms OSq.bsrEq_ne_qubit
 #print axioms OSq.rot_X_two_reps
 #print axioms OSq.reindexGate_eq
 #print axioms OSq.localMatrix_single_spec
